@@ -1470,7 +1470,7 @@ func TestRun(t *testing.T) {
 		run.Sample(strings.Join(first, "\n"))
 		return
 	}
-	cases, nops := 10, 110
+	cases, nops := 10, 104
 	if run.Tier == "thorough" {
 		cases, nops = 24, 260
 	}
